@@ -163,7 +163,7 @@ def grammar_part(prog, R):
         else:
             ctxs = sorted(set((short(x["ctx"]), (x["via"] or ("", "", ""))[0]) for x in al))[:4]
             R.ob(rule, k, False, where(al[0]), f"panic site reachable: {al[0]['what']}; reached in contexts {ctxs}")
-    R.floor("panic-capable sites in the grammar cone", n_pre, 50)
+    R.floor("panic-capable sites in the grammar cone", n_pre, 30)
 
     # ---- C01.4 TS128
     hi = G.alphabet >> 128
